@@ -32,7 +32,8 @@ def strategy(tier):
 
     mix = ["resize", "resize", "resize", "op", "bigop", "bigop", "measure", "struct", "kraus"]
     return st.one_of(S.program_case(mix, max_steps=4), S.program_case(mix, max_steps=4), S.program_case(mix, max_steps=4),
-                     S.lifecycle_case(tail_kinds=("resize", "bigop", "resize"), max_tail=3))
+                     S.lifecycle_case(tail_kinds=("resize", "bigop", "resize"), max_tail=3),
+                     S.survivor_case(touches=("resize", "resize", "fockop", "measure")))
 
 
 def run_case(case):
